@@ -84,7 +84,7 @@ def gen_late_directed(seed, rng, nctx):
     return {"seed": seed, "nctx": 1, "steps": steps, "strategy": "late-directed"}
 
 
-def gen_spec(seed):
+def _gen_spec(seed):
     rng = random.Random(seed)
     by_group = {}
     for op in core.Z.ops:
@@ -171,8 +171,20 @@ def gen_spec(seed):
     return {"seed": seed, "nctx": nctx, "steps": steps}
 
 
+def gen_spec(seed):
+    spec = _gen_spec(seed)
+    # the callers of some runs keep one instance of every object they serialize and of every decoded document
+    # they pass to DictDecoder (an own stream of choices, so that the rest of the run is what it was before)
+    if random.Random(seed ^ 0x5A17).random() < 0.2:
+        spec["share_inputs"] = True
+        for step in spec["steps"]:
+            step.pop("scribble", None)  # a returned object may legitimately alias the caller's own input
+    return spec
+
+
 def run_spec(spec, R):
     core.child_init()
+    O.SHARED_INPUTS = {} if spec.get("share_inputs") else None
     byname = core.Z.op_by_name
     envs = [O.Env() for _ in range(spec.get("nctx", 1))]
     viol = []
